@@ -86,6 +86,12 @@ struct Inner {
 pub struct Sched { inner: Mutex<Inner>, main_cv: Condvar }
 
 thread_local! { static TID: Cell<Option<(u64, Tid)>> = Cell::new(None); }
+thread_local! { static PANICS: Cell<i64> = Cell::new(0); }
+
+/// Called by the panic hook: a panic started on this thread
+pub fn note_panic() { PANICS.with(|p| p.set(p.get() + 1)); }
+/// Called by the harness when it has caught a panic of an operation (the thread survives it)
+pub fn note_caught() { PANICS.with(|p| p.set(p.get() - 1)); }
 
 /// Shortens a type name to a lock class
 pub fn classify(type_name: &'static str, loc: &Location) -> &'static str {
@@ -274,8 +280,9 @@ impl Sched {
             let mut inner = self.inner.lock().unwrap();
             if inner.run != run { return; }
             inner.threads[id].finished = true;
-            inner.threads[id].panicked = result.is_err();
-            inner.cur_obs.push(Obs { kind: "exit", a: id as i64, b: if result.is_err() { 1 } else { 0 } });
+            let died = result.is_err() || PANICS.with(|p| p.get()) > 0;
+            inner.threads[id].panicked = died;
+            inner.cur_obs.push(Obs { kind: "exit", a: id as i64, b: if died { 1 } else { 0 } });
             if inner.spawner.is_none() { inner.end_step(true); }
             TID.with(|t| t.set(None));
             let _inner = self.switch(inner, None);
